@@ -52,13 +52,13 @@ Proof.
   split; [|exact I]. unfold called_ok. rewrite Hcl. exact Hc.
 Qed.
 
-Lemma jspec_emit cs : Forall Q cs -> jspec T (emit cs).
+Lemma jspec_emit cs : Forall Q cs -> jspec T (jemit cs).
 Proof.
   intros F st x st' Hc E. inversion E; subst. exists cs. cbn. rewrite rev_append_rev. split; [reflexivity|]. split; [exact F|].
   split; [exact Hc|exact I].
 Qed.
 
-Lemma jspec_txt t : Q (CText t) -> jspec T (txt t).
+Lemma jspec_txt t : Q (CText t) -> jspec T (jtxt t).
 Proof. intro H. apply jspec_emit. constructor; auto. Qed.
 
 Lemma jspec_stuck {A} (R : A -> Prop) (o : outcome (A * jstate)) : (forall v, o <> Ok v) -> jspec R (fun _ => o).
